@@ -367,7 +367,12 @@ def s_keylen(tid, rnd, kl):
 
 
 def s_ctor(tid, decl):
-    return {"tid": tid, "kind": "ctor", "steps": [{"op": "ctor", "decl": decl}]}
+    steps = [{"op": "ctor", "decl": decl}]
+    if decl["key"] not in KEYLENS and decl["key"] >= 0:
+        # should the constructor let a key length pass that is not permitted, Encrypt has to refuse a key of that length
+        steps.append({"op": "enc", "k": pc.hx(bytes(range(1, decl["key"] + 1)) if decl["key"] < 250 else b"k" * decl["key"]),
+                      "m": pc.hx(b"m" * (decl["msg"] if decl["msg"] not in (UNL, None) and decl["msg"] >= 0 else 5))})
+    return {"tid": tid, "kind": "ctor", "steps": steps}
 
 
 def s_empty_wrongkey(tid, rnd, kl, n, ml=0):
